@@ -1,8 +1,9 @@
 """Approximate idealkrestriction AMG."""
 
 from copy import deepcopy
+from warnings import warn
 import numpy as np
-from scipy.sparse import issparse
+from scipy.sparse import csr_array, issparse, SparseEfficiencyWarning
 
 from ..multilevel import MultilevelSolver
 from ..relaxation.smoothing import change_smoothers
@@ -112,6 +113,14 @@ def air_solver(A,
     >>> ml = air_solver(A,max_coarse=3)
 
     """
+    # convert A to csr
+    if not issparse(A) or A.format not in ('csr', 'bsr'):
+        try:
+            A = csr_array(A)
+            warn('Implicit conversion of A to CSR', SparseEfficiencyWarning)
+        except Exception as e:
+            raise TypeError('Argument A must have type csr_array or bsr_array, '
+                            'or be convertible to csr_array') from e
     # preprocess A
     A = asfptype(A)
     if A.shape[0] != A.shape[1]:
